@@ -83,6 +83,13 @@ class SplitLoop(LoopSpec):
         end.g['rarr'] = ite(push, store(arr, n, arg), arr)
 
 
+def cmd_has_word(s):
+    """spec predicate: the documented splitting rules give at least one argument for the command line s"""
+    if is_sym(s):
+        return _uf('CmdHasWord', 's', 'b')(s)
+    return len(ref_split(s)) >= 1
+
+
 class SplitCommandLine(Contract):
     name = UT + 'split_command_line'
     props = ('C13',)
@@ -110,12 +117,19 @@ class SplitCommandLine(Contract):
         g = v.g
         res = v.result
         if 'rarg' not in g:
-            return []       # seen from a caller: some list of arguments (its content is this function's own contract)
+            # seen from a caller: some list of arguments (its content is this function's own contract); the spec
+            # predicate CmdHasWord(s) is *defined* as "the documented rules give at least one argument for s"
+            return [('def:CmdHasWord', Iff(cmd_has_word(v.old.command_line), res.len >= 1))]
         flush = Not(eq(g['rarg'], ''))
         n = g['rlen']
         return [('result-length', eq(res.len, ite(flush, n + 1, n))),
                 ('result-arguments', forall(0, n, lambda k: eq(res.get(k), select(g['rarr'], k)))),
                 ('last-argument-flushed', Implies(flush, eq(res.get(n), g['rarg'])))]
+
+    def effects(self, v):
+        if 'rarg' not in v.g:       # at a call site: remember which line was split and the words it gave
+            v.g['cmdline.of'] = v.old.command_line
+            v.g['cmdline.words'] = v.result
 
 
 
@@ -304,16 +318,32 @@ class PtySpawnCall(Contract):
         return b
 
 
+class EncodeArgsLoop(LoopSpec):
+    """[a if isinstance(a, bytes) else a.encode(self.encoding) for a in self.args] over the words of a command line
+    (the list form has a concrete length and is followed element by element)"""
+    def vars(self, v):
+        return {'_comp0': TSymList((('a', T.Bytes),), True)}
+
+    def invariant(self, v):
+        src, out, i = v.l.self.args, v.l._comp0, v.l._i100
+        return [('out-len', out.len == i),
+                ('C13:words-so-far-encoded-in-order', forall(0, i, lambda k: eq(out.get(k), utf8_transcode(src.get(k), True))))]
+
+    def variant(self, v):
+        return v.l.self.args.len - v.l._i100
+
+
 class SpawnLaunch(Contract):
     """_spawn with an explicit argument list of length 1 or 2 (the option pass-through does not depend on the
     length; command lines given as one string go through split_command_line, under contract above)."""
     name = PTYS + '._spawn'
     props = ('C13',)
     standin = False
+    comps = {0: EncodeArgsLoop()}
 
     def shape(self, b):
         kind = b.choice('mode', ['b', 's'])
-        nargs = b.choice('nargs', [1, 2])
+        nargs = b.choice('nargs', [0, 1, 2])      # 0: the command line is one string (split by the documented rules)
         args = b.list([b.str('arg%d' % i, 's') for i in range(nargs)])
         env = b.opt('self.env', lambda: b.obj('env', 'iface:env', sealed=True))
         sp = b.obj('self', PTYS, sealed=False, env=env, cwd=b.opt('cwd', lambda: b.str('cwd', 's')),
@@ -326,6 +356,12 @@ class SpawnLaunch(Contract):
         dims = b.opt('dimensions', lambda: b.tuple(b.int('rows'), b.int('cols')))
         pre = b.opt('preexec_fn', lambda: b.any('preexec_fn'))
         return dict(self=sp, command=b.str('command', 's'), args=args, preexec_fn=pre, dimensions=dims)
+
+    def requires(self, v):
+        if v.a.args.len == 0:
+            # spawn('') / spawn('   ') ask for nothing to be started (the real code fails with IndexError)
+            return [('the-command-line-names-a-program', cmd_has_word(v.a.command))]
+        return []
 
     def outcomes(self, v):
         return [Ret(T.NoneT), Raises('ExceptionPexpect', 'not-found'), Raises('UnicodeEncodeError')]
@@ -343,6 +379,32 @@ class SpawnLaunch(Contract):
                ('C13:environment', (g['launch.env'] is None) if sp.env is None else eq(g['launch.env'], sp.env)),
                ('C13:echo-setting', eq(g['launch.echo'], sp.echo)),
                ('C13:PATH-of-the-env-argument', (g.get('which.env') is None) if sp.env is None else eq(g.get('which.env'), sp.env))]
+        # the argument vector: the list form is taken verbatim (no re-splitting, no re-ordering, nothing dropped), the
+        # program is what which() found for exactly the command given; text arguments are encoded in unicode mode
+        argv, args0 = g['launch.argv'], v.old.args
+        if not getattr(v, 'concrete', False):
+            enc = (lambda t: t) if sp.encoding is None else (lambda t: utf8_transcode(t, True))
+            n = args0.len
+            if n == 0:
+                # string form: the words are split_command_line(command); the program is looked up under the first
+                # word and every other word reaches the child unchanged, in order
+                words = g.get('cmdline.words')
+                out.append(('C13:the-command-line-given-is-split', And(words is not None, eq(g.get('cmdline.of'), v.old.command))))
+                if words is not None:
+                    out += [('C13:which-is-asked-for-the-first-word', eq(g.get('which.filename'), words.get(0))),
+                            ('C13:argv-has-every-word', eq(argv.len, words.len)),
+                            ('C13:argv0-is-the-program-found', eq(argv.get(0), enc(new.command))),
+                            ('C13:words-verbatim-in-order', forall(1, words.len, lambda k: eq(argv.get(k), enc(words.get(k))))),
+                            ('C13:args-attribute-has-every-word', eq(new.args.len, argv.len)),
+                            ('C13:args-attribute-is-argv', forall(0, argv.len, lambda k: eq(new.args.get(k), argv.get(k))))]
+            else:
+                out.append(('C13:which-is-asked-for-the-command-given', eq(g.get('which.filename'), v.old.command)))
+                out.append(('C13:argv-has-the-program-and-every-argument', eq(argv.len, n + 1)))
+                if isinstance(argv.len, int) and argv.len == n + 1:
+                    out.append(('C13:argv0-is-the-program-found', eq(argv.get(0), enc(new.command))))
+                    out.append(('C13:arguments-verbatim-in-order', And(*[eq(argv.get(i + 1), enc(args0.get(i))) for i in range(n)])))
+                    out.append(('C13:args-attribute-is-program-plus-arguments',
+                                And(eq(new.args.len, n + 1), *[eq(new.args.get(i), argv.get(i)) for i in range(n + 1)])))
         d = v.old.dimensions
         if d is None:
             out.append(('C13:default-terminal-size', g['launch.dimensions_given'] is False))
